@@ -260,7 +260,7 @@ pub fn run(tier: Tier) -> i32 {
     let mut run = Run::new("C13", tier, "exploration");
     let p = Views;
     run.replays("view-relations", &p);
-    run.generated("view-relations", &p, tier.pick(80_000, 3_000_000));
+    run.generated("view-relations", &p, tier.pick(300_000, 3_000_000));
     run.finish(RULE, &["relations only: no reference model is involved"])
 }
 
